@@ -64,11 +64,11 @@ func (c13) Budget(tier string) runner.Budget {
 
 func (c13) Describe() runner.Description {
 	return runner.Description{
-		Rule:        "each plan: group size n in [3,10] (the dev minimum to the maximum), seeded member ids and per-group secrets; the n*n share pieces produced by the node's DKG member objects are delivered in a seeded order with duplicates; then 1..4 messages are signed by every member and 2..5 collectors receive the shares in seeded arrival orders (dropping up to n-k, duplicates, late arrivals after recovery). Checked: all members derive the same group public key, equal to the sum of the dealers' public keys; every share verifies under the member's public share; the threshold equals ceil(51% n); every collector, under every seeded internal k-subset choice and share-map iteration order, recovers exactly H(m)^s for s = sum of the dealers' secrets, which verifies under the group public key; with fewer than k distinct shares nothing is produced; for n<=7 additionally EVERY k-subset is recovered directly; in 30% of the plans one more collector is fed by 2-4 concurrently scheduled handler tasks (own decoded copies of the shares; each verifies the sender's block share and beacon share - two messages - before filing them in two collectors) that also poll it: every signature handed out and the final one must be H(m)^s. distinct_nontrivial = distinct (n, arrival-order signature) pairs with more shares than the threshold.",
+		Rule:        "each plan: group size n in [3,10] (the dev minimum to the maximum), seeded member ids and per-group secrets; the n*n share pieces produced by the node's DKG member objects are delivered in a seeded order with duplicates; then 1..4 messages are signed by every member (every other member with its key written out and read back in the hex / byte form a restarted node loads) and 2..5 collectors receive the shares in seeded arrival orders (dropping up to n-k, duplicates, late arrivals after recovery). Checked: all members derive the same group public key, equal to the sum of the dealers' public keys; every share verifies under the member's public share; the threshold equals ceil(51% n); every collector, under every seeded internal k-subset choice and share-map iteration order, recovers exactly H(m)^s for s = sum of the dealers' secrets, which verifies under the group public key; with fewer than k distinct shares nothing is produced; for n<=7 additionally EVERY k-subset is recovered directly; in 30% of the plans one more collector is fed by 2-4 concurrently scheduled handler tasks (own decoded copies of the shares; each verifies the sender's block share and beacon share - two messages - before filing them in two collectors) that also poll it: every signature handed out and the final one must be H(m)^s. distinct_nontrivial = distinct (n, arrival-order signature) pairs with more shares than the threshold.",
 		Assumptions: []string{"the reference signature H(m)^s is computed with the repository's Sign on the independently summed secret (BLS uniqueness makes it the only signature valid under the group key; verification soundness itself is property C14, not applicable here)"},
 		Real:        []string{"consensus/logical/group_create.groupNodeInfo (DKG member)", "consensus/groupsig (ShareSeckey, AggregateSeckeys/Pubkeys, Sign, VerifySig, RecoverGroupSignature, Lagrange recovery)", "consensus/model.GroupSignGenerator", "consensus/base.Rand (seeded via hook)"},
 		Stub:        []string{"transport between members (simulated: reorder, duplicate, drop)", "the rest of the node (not booted)"},
-		FaultKinds:  []string{"dkg_reorder", "dkg_duplicate", "share_drop", "share_duplicate", "share_late_after_recovery", "internal_subset_seed", "map_order_seed", "concurrent_handlers"},
+		FaultKinds:  []string{"dkg_reorder", "dkg_duplicate", "share_drop", "share_duplicate", "share_late_after_recovery", "internal_subset_seed", "map_order_seed", "concurrent_handlers", "key_reloaded_from_storage_form"},
 	}
 }
 
@@ -232,8 +232,26 @@ func (c13) Exec(raw json.RawMessage, st *simrt.Stats, log *simrt.Log) *simrt.Vio
 		shares := make([]groupsig.Signature, n)
 		for i, m := range members {
 			sk := m.SignSecKey()
+			pub := *groupsig.GeneratePubkey(sk)
+			// every other member signs with its key as a restarted node holds it: written out and read back in
+			// the hex and byte forms the joined-group store and the configuration use
+			if (i+mi)%2 == 1 {
+				var viaHex, viaBytes groupsig.Seckey
+				if err := viaHex.SetHexString(sk.GetHexString()); err != nil {
+					return viol(mi, "key-codec-error", "seckey-hex", "member %d's signing key cannot be read back from its hex form: %v", i, err)
+				}
+				if err := viaBytes.Deserialize(sk.Serialize()); err != nil {
+					return viol(mi, "key-codec-error", "seckey-bytes", "member %d's signing key cannot be read back from its byte form: %v", i, err)
+				}
+				st.Fault("key_reloaded_from_storage_form")
+				if mi%2 == 0 {
+					sk = viaHex
+				} else {
+					sk = viaBytes
+				}
+			}
 			shares[i] = groupsig.Sign(sk, msg[:])
-			if !groupsig.VerifySig(*groupsig.GeneratePubkey(sk), msg[:], shares[i]) {
+			if !groupsig.VerifySig(pub, msg[:], shares[i]) {
 				return viol(mi, "share-does-not-verify", "member-share", "member %d's signature share does not verify under its public share", i)
 			}
 		}
